@@ -1153,3 +1153,139 @@ package ice
 //@   at call:encoding/binary.Uvarint#1 assume 1 <= result1 && addr + n + result1 + result0 <= s.footer.fieldsIndexOffset
 //@   at call:encoding/binary.Uvarint#2 assume 1 <= result1 && addr + n + result1 <= s.footer.fieldsIndexOffset
 //@   loop 0 invariant[C04] dlen(s.data) == old(dlen(s.data)) && s.data == old(s.data) && s.footer == old(s.footer) && s.footer.fieldsIndexOffset == old(s.footer.fieldsIndexOffset) && fieldsIndexEnd == dlen(s.data)
+//@
+//@ // ---------------------------------------------------------------------------
+//@ // C05: the freq/norm decoder is positioned on the returned document (exclusion mode).
+//@ // upos(d) counts the uvarints consumed from the decoder's current chunk; a posting's record is
+//@ // two uvarints. The k-th record of chunk c belongs to the k-th member of the full postings in
+//@ // [cstart(c), cstart(c+1)).
+//@ ghostfield * upos int
+//@ uninterpreted cstart(c int, cs int) int
+//@ axiom cstart-def (c int, cs int) : cstart(c, cs) == c * cs pattern cstart(c, cs)
+//@ axiom cstart-div (d int, cs int) : cs >= 1 && d >= 0 ==> cstart(d / cs, cs) <= d && d < cstart(d / cs, cs) + cs && d / cs >= 0 pattern cstart(d / cs, cs)
+//@ axiom cstart-mono (a int, b int, cs int) : cs >= 1 && a < b ==> cstart(a, cs) + cs <= cstart(b, cs) pattern cstart(a, cs), cstart(b, cs)
+//@ func (*chunkedIntDecoder).readUvarint
+//@   frames[C05] upos(d), !d.curChunkBytes
+//@   ghostset upos(d) = old(upos(d)) + 1
+//@   ensures[C05] upos(d) == old(upos(d)) + 1
+//@ func (*chunkedIntDecoder).SkipUvarint
+//@   frames[C05] upos(d), !d.curChunkBytes
+//@   ghostset upos(d) = old(upos(d)) + 1
+//@   ensures[C05] upos(d) == old(upos(d)) + 1
+//@ func (*chunkedIntDecoder).loadChunk
+//@   frames[C05] d.curChunkBytes, upos(d)
+//@   ghostset upos(d) = 0
+//@   ensures[C05] upos(d) == 0
+//@   // valid file: the stream of a term with postings is encoded, and a chunk that holds a posting is not empty
+//@   assume d.startOffset != 0
+//@   at call:ZSTDDecompress#0 assume result1 == nil ==> len(result0) != 0
+//@   ensures[C05] result0 == nil ==> len(d.curChunkBytes) != 0
+//@ func (*chunkedIntDecoder).isNil
+//@   pure
+//@   ensures[C05] result0 == (len(d.curChunkBytes) == 0)
+//@ func (*PostingsIterator).loadChunk
+//@   requires[C05] i.includeFreqNorm && i.includeLocs ==> i.freqNormReader != i.locReader
+//@   ensures[C05] result0 == nil ==> i.currChunk == chunk
+//@   ensures[C05] result0 == nil && i.includeFreqNorm ==> upos(i.freqNormReader) == 0 && len(i.freqNormReader.curChunkBytes) != 0
+//@   ensures[C05] i.freqNormReader == old(i.freqNormReader)
+//@ func (*PostingsIterator).skipFreqNormReadHasLocs
+//@   ensures[C05] result1 == nil && i.normBits1Hit == 0 ==> upos(i.freqNormReader) == old(upos(i.freqNormReader)) + 2
+//@   ensures[C05] i.freqNormReader == old(i.freqNormReader) && i.currChunk == old(i.currChunk)
+//@ func (*PostingsIterator).readFreqNormHasLocs
+//@   ensures[C05] err == nil && i.normBits1Hit == 0 ==> upos(i.freqNormReader) == old(upos(i.freqNormReader)) + 2
+//@ func (*PostingsIterator).currChunkNext
+//@   requires[C05] i.includeFreqNorm && i.includeLocs ==> i.freqNormReader != i.locReader
+//@   ensures[C05] @skips_one_record result0 == nil && i.normBits1Hit == 0 && i.includeFreqNorm ==> i.currChunk == nChunk && len(i.freqNormReader.curChunkBytes) != 0 && upos(i.freqNormReader) == ite(old(i.currChunk) == nChunk && old(len(i.freqNormReader.curChunkBytes)) != 0, old(upos(i.freqNormReader)), 0) + 2
+//@   ensures[C05] i.freqNormReader == old(i.freqNormReader)
+//@ axiom cstart-div2 (c int, d int, cs int) : cs >= 1 && c >= 0 && d >= cstart(c, cs) ==> d / cs >= c pattern cstart(c, cs), d / cs
+//@
+//@ // exclusion mode: the decoder's position is the rank, within the current chunk, of the cursor of `all`
+//@ func (*PostingsIterator).nextDocNumAtOrAfter
+//@   let A = itset(i.all)
+//@   let cs = i.postings.chunkSize
+//@   let F = i.freqNormReader
+//@   requires[C05] @aligned i.includeFreqNorm && i.normBits1Hit == 0 && i.Actual != nil ==> F != nil && (i.includeLocs ==> F != i.locReader)
+//@   requires[C05] @aligned i.includeFreqNorm && i.normBits1Hit == 0 && i.Actual != nil && i.postings.postings != i.ActualBM && len(F.curChunkBytes) != 0 ==> upos(F) == 2 * (cardbelow(A, itcur(i.all)) - cardbelow(A, cstart(i.currChunk, cs))) && cstart(i.currChunk, cs) <= itcur(i.all) && itcur(i.all) <= cstart(i.currChunk, cs) + cs
+//@   requires[C05] @aligned i.includeFreqNorm && i.normBits1Hit == 0 && i.Actual != nil && i.postings.postings != i.ActualBM && len(F.curChunkBytes) == 0 ==> itcur(i.all) == 0
+//@   loop 0 invariant[C05] i.freqNormReader == old(i.freqNormReader) && i.locReader == old(i.locReader) && i.postings == old(i.postings) && i.postings.chunkSize == old(i.postings.chunkSize) && i.includeFreqNorm == old(i.includeFreqNorm) && i.includeLocs == old(i.includeLocs) && i.normBits1Hit == 0
+//@   loop 0 invariant[C05] nChunk == n / cs && allNReachesNChunk == cstart(nChunk, cs) && allNReachesNChunk <= n
+//@   loop 0 invariant[C05] i.includeFreqNorm && len(F.curChunkBytes) != 0 && i.currChunk == nChunk ==> upos(F) == 2 * (cardbelow(A, allN) - cardbelow(A, allNReachesNChunk)) && allN >= allNReachesNChunk
+//@   loop 0 invariant[C05] i.includeFreqNorm && !(len(F.curChunkBytes) != 0 && i.currChunk == nChunk) ==> (allN >= allNReachesNChunk ==> cardbelow(A, allN) == cardbelow(A, allNReachesNChunk))
+//@   ensures[C05] @decoder_on_returned_document old(i.normBits1Hit) == 0 && old(i.Actual) != nil && old(i.postings.postings != i.ActualBM) && i.includeFreqNorm && err == nil && exists ==> len(F.curChunkBytes) != 0 && i.currChunk == docNum / cs && upos(F) == 2 * (cardbelow(A, docNum) - cardbelow(A, cstart(i.currChunk, cs))) && select(A, docNum) && itcur(i.all) == docNum + 1
+//@   ensures[C05] @decoder_untouched_without_result old(i.normBits1Hit) == 0 && old(i.Actual) != nil && old(i.postings.postings != i.ActualBM) && err == nil && !exists ==> itcur(i.all) == old(itcur(i.all)) && upos(F) == old(upos(F)) && i.currChunk == old(i.currChunk) && len(F.curChunkBytes) == old(len(F.curChunkBytes))
+//@   ensures[C05] i.freqNormReader == old(i.freqNormReader) && i.locReader == old(i.locReader) && i.includeFreqNorm == old(i.includeFreqNorm) && i.includeLocs == old(i.includeLocs)
+//@   at call:(*PostingsIterator).currChunkNext#0 lemma[C05] result0 == nil ==> i.currChunk == nChunk && len(F.curChunkBytes) != 0 && upos(F) == 2 * (cardbelow(A, allN) + 1 - cardbelow(A, allNReachesNChunk))
+//@   at call:(*PostingsIterator).currChunkNext#0 lemma[C05] result0 == nil ==> upos(F) == 2 * (cardbelow(A, allN + 1) - cardbelow(A, allNReachesNChunk))
+//@   loop 0 invariant[C05] select(A, allN)
+//@
+//@ // the decoder alignment is part of the iterator invariant at the API boundary
+//@ func (*PostingsIterator).nextAtOrAfter
+//@   requires[C05] @aligned i.includeFreqNorm && i.normBits1Hit == 0 && i.Actual != nil ==> i.freqNormReader != nil && (i.includeLocs ==> i.freqNormReader != i.locReader)
+//@   requires[C05] @aligned i.includeFreqNorm && i.normBits1Hit == 0 && i.Actual != nil && i.postings.postings != i.ActualBM && len(i.freqNormReader.curChunkBytes) != 0 ==> upos(i.freqNormReader) == 2 * (cardbelow(itset(i.all), itcur(i.all)) - cardbelow(itset(i.all), cstart(i.currChunk, i.postings.chunkSize))) && cstart(i.currChunk, i.postings.chunkSize) <= itcur(i.all) && itcur(i.all) <= cstart(i.currChunk, i.postings.chunkSize) + i.postings.chunkSize
+//@   requires[C05] @aligned i.includeFreqNorm && i.normBits1Hit == 0 && i.Actual != nil && i.postings.postings != i.ActualBM && len(i.freqNormReader.curChunkBytes) == 0 ==> itcur(i.all) == 0
+//@   ensures[C05] @aligned_kept result1 == nil && i.includeFreqNorm && i.normBits1Hit == 0 && i.Actual != nil ==> i.freqNormReader != nil && (i.includeLocs ==> i.freqNormReader != i.locReader)
+//@   ensures[C05] @aligned_kept result1 == nil && i.includeFreqNorm && i.normBits1Hit == 0 && i.Actual != nil && i.postings.postings != i.ActualBM && len(i.freqNormReader.curChunkBytes) != 0 ==> upos(i.freqNormReader) == 2 * (cardbelow(itset(i.all), itcur(i.all)) - cardbelow(itset(i.all), cstart(i.currChunk, i.postings.chunkSize))) && cstart(i.currChunk, i.postings.chunkSize) <= itcur(i.all) && itcur(i.all) <= cstart(i.currChunk, i.postings.chunkSize) + i.postings.chunkSize
+//@   ensures[C05] @aligned_kept result1 == nil && i.includeFreqNorm && i.normBits1Hit == 0 && i.Actual != nil && i.postings.postings != i.ActualBM && len(i.freqNormReader.curChunkBytes) == 0 ==> itcur(i.all) == 0
+//@ func (*PostingsIterator).Next
+//@   requires[C05] @aligned i.includeFreqNorm && i.normBits1Hit == 0 && i.Actual != nil ==> i.freqNormReader != nil && (i.includeLocs ==> i.freqNormReader != i.locReader)
+//@   requires[C05] @aligned i.includeFreqNorm && i.normBits1Hit == 0 && i.Actual != nil && i.postings.postings != i.ActualBM && len(i.freqNormReader.curChunkBytes) != 0 ==> upos(i.freqNormReader) == 2 * (cardbelow(itset(i.all), itcur(i.all)) - cardbelow(itset(i.all), cstart(i.currChunk, i.postings.chunkSize))) && cstart(i.currChunk, i.postings.chunkSize) <= itcur(i.all) && itcur(i.all) <= cstart(i.currChunk, i.postings.chunkSize) + i.postings.chunkSize
+//@   requires[C05] @aligned i.includeFreqNorm && i.normBits1Hit == 0 && i.Actual != nil && i.postings.postings != i.ActualBM && len(i.freqNormReader.curChunkBytes) == 0 ==> itcur(i.all) == 0
+//@   ensures[C05] @aligned_kept result1 == nil && i.includeFreqNorm && i.normBits1Hit == 0 && i.Actual != nil ==> i.freqNormReader != nil && (i.includeLocs ==> i.freqNormReader != i.locReader)
+//@   ensures[C05] @aligned_kept result1 == nil && i.includeFreqNorm && i.normBits1Hit == 0 && i.Actual != nil && i.postings.postings != i.ActualBM && len(i.freqNormReader.curChunkBytes) != 0 ==> upos(i.freqNormReader) == 2 * (cardbelow(itset(i.all), itcur(i.all)) - cardbelow(itset(i.all), cstart(i.currChunk, i.postings.chunkSize))) && cstart(i.currChunk, i.postings.chunkSize) <= itcur(i.all) && itcur(i.all) <= cstart(i.currChunk, i.postings.chunkSize) + i.postings.chunkSize
+//@   ensures[C05] @aligned_kept result1 == nil && i.includeFreqNorm && i.normBits1Hit == 0 && i.Actual != nil && i.postings.postings != i.ActualBM && len(i.freqNormReader.curChunkBytes) == 0 ==> itcur(i.all) == 0
+//@ func (*PostingsIterator).Advance
+//@   requires[C05] @aligned i.includeFreqNorm && i.normBits1Hit == 0 && i.Actual != nil ==> i.freqNormReader != nil && (i.includeLocs ==> i.freqNormReader != i.locReader)
+//@   requires[C05] @aligned i.includeFreqNorm && i.normBits1Hit == 0 && i.Actual != nil && i.postings.postings != i.ActualBM && len(i.freqNormReader.curChunkBytes) != 0 ==> upos(i.freqNormReader) == 2 * (cardbelow(itset(i.all), itcur(i.all)) - cardbelow(itset(i.all), cstart(i.currChunk, i.postings.chunkSize))) && cstart(i.currChunk, i.postings.chunkSize) <= itcur(i.all) && itcur(i.all) <= cstart(i.currChunk, i.postings.chunkSize) + i.postings.chunkSize
+//@   requires[C05] @aligned i.includeFreqNorm && i.normBits1Hit == 0 && i.Actual != nil && i.postings.postings != i.ActualBM && len(i.freqNormReader.curChunkBytes) == 0 ==> itcur(i.all) == 0
+//@   ensures[C05] @aligned_kept result1 == nil && i.includeFreqNorm && i.normBits1Hit == 0 && i.Actual != nil ==> i.freqNormReader != nil && (i.includeLocs ==> i.freqNormReader != i.locReader)
+//@   ensures[C05] @aligned_kept result1 == nil && i.includeFreqNorm && i.normBits1Hit == 0 && i.Actual != nil && i.postings.postings != i.ActualBM && len(i.freqNormReader.curChunkBytes) != 0 ==> upos(i.freqNormReader) == 2 * (cardbelow(itset(i.all), itcur(i.all)) - cardbelow(itset(i.all), cstart(i.currChunk, i.postings.chunkSize))) && cstart(i.currChunk, i.postings.chunkSize) <= itcur(i.all) && itcur(i.all) <= cstart(i.currChunk, i.postings.chunkSize) + i.postings.chunkSize
+//@   ensures[C05] @aligned_kept result1 == nil && i.includeFreqNorm && i.normBits1Hit == 0 && i.Actual != nil && i.postings.postings != i.ActualBM && len(i.freqNormReader.curChunkBytes) == 0 ==> itcur(i.all) == 0
+//@ func mergeTermFreqNormLocs
+//@   requires[C05] @aligned postItr.includeFreqNorm && postItr.normBits1Hit == 0 && postItr.Actual != nil ==> postItr.freqNormReader != nil && (postItr.includeLocs ==> postItr.freqNormReader != postItr.locReader)
+//@   requires[C05] @aligned postItr.includeFreqNorm && postItr.normBits1Hit == 0 && postItr.Actual != nil && postItr.postings.postings != postItr.ActualBM && len(postItr.freqNormReader.curChunkBytes) != 0 ==> upos(postItr.freqNormReader) == 2 * (cardbelow(itset(postItr.all), itcur(postItr.all)) - cardbelow(itset(postItr.all), cstart(postItr.currChunk, postItr.postings.chunkSize))) && cstart(postItr.currChunk, postItr.postings.chunkSize) <= itcur(postItr.all) && itcur(postItr.all) <= cstart(postItr.currChunk, postItr.postings.chunkSize) + postItr.postings.chunkSize
+//@   requires[C05] @aligned postItr.includeFreqNorm && postItr.normBits1Hit == 0 && postItr.Actual != nil && postItr.postings.postings != postItr.ActualBM && len(postItr.freqNormReader.curChunkBytes) == 0 ==> itcur(postItr.all) == 0
+//@   loop 0 invariant[C05] err == nil && postItr.includeFreqNorm && postItr.normBits1Hit == 0 && postItr.Actual != nil ==> postItr.freqNormReader != nil && (postItr.includeLocs ==> postItr.freqNormReader != postItr.locReader)
+//@   loop 0 invariant[C05] err == nil && postItr.includeFreqNorm && postItr.normBits1Hit == 0 && postItr.Actual != nil && postItr.postings.postings != postItr.ActualBM && len(postItr.freqNormReader.curChunkBytes) != 0 ==> upos(postItr.freqNormReader) == 2 * (cardbelow(itset(postItr.all), itcur(postItr.all)) - cardbelow(itset(postItr.all), cstart(postItr.currChunk, postItr.postings.chunkSize))) && cstart(postItr.currChunk, postItr.postings.chunkSize) <= itcur(postItr.all) && itcur(postItr.all) <= cstart(postItr.currChunk, postItr.postings.chunkSize) + postItr.postings.chunkSize
+//@   loop 0 invariant[C05] err == nil && postItr.includeFreqNorm && postItr.normBits1Hit == 0 && postItr.Actual != nil && postItr.postings.postings != postItr.ActualBM && len(postItr.freqNormReader.curChunkBytes) == 0 ==> itcur(postItr.all) == 0
+//@ func (*PostingsList).iterator
+//@   ensures[C05] @aligned_established result1 == nil && result0.includeFreqNorm && result0.normBits1Hit == 0 && result0.Actual != nil ==> result0.freqNormReader != nil && (result0.includeLocs ==> result0.freqNormReader != result0.locReader)
+//@   ensures[C05] @aligned_established result1 == nil && result0.includeFreqNorm && result0.normBits1Hit == 0 && result0.Actual != nil && result0.postings.postings != result0.ActualBM && len(result0.freqNormReader.curChunkBytes) != 0 ==> upos(result0.freqNormReader) == 2 * (cardbelow(itset(result0.all), itcur(result0.all)) - cardbelow(itset(result0.all), cstart(result0.currChunk, result0.postings.chunkSize))) && cstart(result0.currChunk, result0.postings.chunkSize) <= itcur(result0.all) && itcur(result0.all) <= cstart(result0.currChunk, result0.postings.chunkSize) + result0.postings.chunkSize
+//@   ensures[C05] @aligned_established result1 == nil && result0.includeFreqNorm && result0.normBits1Hit == 0 && result0.Actual != nil && result0.postings.postings != result0.ActualBM && len(result0.freqNormReader.curChunkBytes) == 0 ==> itcur(result0.all) == 0
+//@ func (*PostingsIterator).readLocation
+//@   ensures[C05] i.freqNormReader == old(i.freqNormReader) && i.locReader == old(i.locReader) && (i.freqNormReader != i.locReader ==> upos(i.freqNormReader) == old(upos(i.freqNormReader)) && len(i.freqNormReader.curChunkBytes) == old(len(i.freqNormReader.curChunkBytes)))
+//@ func (*PostingsIterator).nextAtOrAfter
+//@   loop 0 invariant[C05] i.includeFreqNorm && i.normBits1Hit == 0 && i.Actual != nil ==> i.freqNormReader != nil && (i.includeLocs ==> i.freqNormReader != i.locReader)
+//@   loop 0 invariant[C05] i.includeFreqNorm && i.normBits1Hit == 0 && i.Actual != nil && i.postings.postings != i.ActualBM && len(i.freqNormReader.curChunkBytes) != 0 ==> upos(i.freqNormReader) == 2 * (cardbelow(itset(i.all), itcur(i.all)) - cardbelow(itset(i.all), cstart(i.currChunk, i.postings.chunkSize))) && cstart(i.currChunk, i.postings.chunkSize) <= itcur(i.all) && itcur(i.all) <= cstart(i.currChunk, i.postings.chunkSize) + i.postings.chunkSize
+//@   loop 0 invariant[C05] i.includeFreqNorm && i.normBits1Hit == 0 && i.Actual != nil && i.postings.postings != i.ActualBM && len(i.freqNormReader.curChunkBytes) == 0 ==> itcur(i.all) == 0
+//@   loop 0 invariant[C05] i.includeFreqNorm == old(i.includeFreqNorm) && i.includeLocs == old(i.includeLocs) && i.normBits1Hit == old(i.normBits1Hit)
+//@ func newChunkedIntDecoder
+//@   frames[C05] rv.curChunkBytes
+//@   ensures[C05] result1 == nil ==> result0 != nil && (rv != nil ==> result0 == rv) && (rv == nil ==> fresh(result0)) && len(result0.curChunkBytes) == ite(rv != nil, old(len(rv.curChunkBytes)), 0)
+//@   loop 0 invariant[C05] rv != nil && len(rv.curChunkBytes) == ite(old(rv) != nil, old(len(rv.curChunkBytes)), 0)
+//@ func (*chunkedIntDecoder).reset
+//@   frames[C05] d.curChunkBytes
+//@   ensures[C05] len(d.curChunkBytes) == 0
+//@ func (*PostingsList).iterator
+//@   // input contract on a reused iterator: its two decoders are distinct objects
+//@   requires[C05] rv != nil && rv.freqNormReader != nil ==> rv.freqNormReader != rv.locReader
+//@ func (*PostingsList).Iterator
+//@   requires[C05] cast(prealloc, "*PostingsIterator") != nil && dyntype(prealloc) == typetag("*PostingsIterator") && cast(prealloc, "*PostingsIterator").freqNormReader != nil ==> cast(prealloc, "*PostingsIterator").freqNormReader != cast(prealloc, "*PostingsIterator").locReader
+//@ func (*PostingsIterator).nextDocNumAtOrAfterClean
+//@   requires[C05] i.includeFreqNorm ==> i.freqNormReader != nil && (i.includeLocs ==> i.freqNormReader != i.locReader)
+//@   ensures[C05] i.freqNormReader == old(i.freqNormReader) && i.locReader == old(i.locReader) && i.includeFreqNorm == old(i.includeFreqNorm) && i.includeLocs == old(i.includeLocs)
+//@   loop 0 invariant[C05] i.freqNormReader == old(i.freqNormReader) && i.locReader == old(i.locReader) && i.includeFreqNorm == old(i.includeFreqNorm) && i.includeLocs == old(i.includeLocs)
+//@   loop 1 invariant[C05] i.freqNormReader == old(i.freqNormReader) && i.locReader == old(i.locReader) && i.includeFreqNorm == old(i.includeFreqNorm) && i.includeLocs == old(i.includeLocs)
+//@ func (*PostingsIterator).nextAtOrAfter
+//@   ensures[C05] i.freqNormReader == old(i.freqNormReader) && i.locReader == old(i.locReader)
+//@ func (*PostingsIterator).Next
+//@   ensures[C05] i.freqNormReader == old(i.freqNormReader) && i.locReader == old(i.locReader)
+//@ func (*PostingsList).iterator
+//@   ensures[C05] @decoders_distinct result1 == nil && result0.freqNormReader != nil ==> result0.freqNormReader != result0.locReader
+//@ func mergeTermFreqNormLocs
+//@   ensures[C05] postItr.freqNormReader == old(postItr.freqNormReader) && postItr.locReader == old(postItr.locReader)
+//@   loop 0 invariant[C05] postItr.freqNormReader == old(postItr.freqNormReader) && postItr.locReader == old(postItr.locReader)
+//@ func persistMergedRestField
+//@   loop 0 invariant[C05] postItr != nil && postItr.freqNormReader != nil ==> postItr.freqNormReader != postItr.locReader
+//@ func writeUvarints
+//@   loop 0 invariant[C04] isCHW(w) ==> cast(w, "*countHashWriter").n >= old(cast(w, "*countHashWriter").n)
+//@   ensures[C04] isCHW(w) ==> cast(w, "*countHashWriter").n >= old(cast(w, "*countHashWriter").n)
